@@ -75,7 +75,11 @@ def gen_case(rng, big=False, tie=False):
     frames = []
     shear = kind == "tri" and T >= 2 and rng.random() < 0.6    # same box lengths, another tilt in every frame (a sheared cell)
     H0 = H
+    relabel = T >= 2 and K >= 2 and rng.random() < 0.45    # same composition, labels on other particles in later frames (atom swaps)
     for _ in range(T):
+        if relabel and frames:
+            types = types[:]
+            rng.shuffle(types)
         if shear:
             H = [row[:] for row in H0]
             for i in range(d):
@@ -103,7 +107,7 @@ def gen_case(rng, big=False, tie=False):
                 pos.append(["%.3f" % (c[k] + rng.uniform(-0.9, 0.9)) for k in range(d)])
         frames.append({"H": H, "types": types, "pos": pos})
     return {"d": d, "K": K, "N": N, "T": T, "kind": kind, "ppp": ppp, "box": L, "rdelta": delta, "frames": frames,
-            "config": config, "tie": tie, "csv": rng.random() < 0.25, "shear": shear}
+            "config": config, "tie": tie, "csv": rng.random() < 0.25, "shear": shear, "relabel": relabel}
 
 
 def op_line(c):
@@ -351,7 +355,7 @@ def run_cases(run, cases, record=True):
         if record:
             for nm, v in (("species", c["K"]), ("dim", c["d"]), ("cell", c["kind"]), ("mask", "".join(c["ppp"])), ("frames", c["T"]),
                           ("config", c["config"]), ("rdelta", c["rdelta"]), ("method", parsed["method"]),
-                          ("sheared_frames", bool(c.get("shear")))):
+                          ("sheared_frames", bool(c.get("shear"))), ("labels_move_between_frames", bool(c.get("relabel")))):
                 run.hist(nm, v)
         if res[0] == "skip":
             if record:
